@@ -10,7 +10,8 @@ THEOREMS = ['C10_category_range', 'C10_category_of_family', 'C10_field_order', '
             'C10_relay_distance', 'C10_sort_length', 'C10_fieldOrder_total_generic',
             'pyMatch_eq_language', 'C10_category_by_language', 'C10_hurdles_total', 'C10_duration_total',
             'C10_throws_total', 'C10_jumps_total', 'C10_track_metres_total', 'C10_sortKey_fails_only_through_getDistance',
-            'C10_sortKey_total', 'C10_textKey_total', 'C10_sortBy_total', 'C10_getDistance_total_nonrelay', 'C10_total_partial']
+            'C10_sortKey_total', 'C10_textKey_total', 'C10_sortBy_total', 'C10_getDistance_total_nonrelay', 'C10_total_partial',
+            'C10_getDistance_total', 'C10_total']
 LEAN_MODULES = ['AthlibVerif.Oblig.C07.Tie', 'AthlibVerif.Oblig.C10.Groups', 'AthlibVerif.Props.C10']
 
 def call(f, *a, **kw):
@@ -29,7 +30,7 @@ def run(ctx):
     ok, log, failed = ctx.build(LEAN_MODULES)
     if ok:
         ctx.audit(['AthlibVerif.Props.C10'], ['AthlibVerif.Props.C10.' + n for n in THEOREMS])
-        if not ctx.quick(): ctx.leanchecker(['AthlibVerif.Props.C10', 'AthlibVerif.Lemmas.MatchSound', 'AthlibVerif.Lemmas.MatchCodes', 'AthlibVerif.Lemmas.DistToken', 'AthlibVerif.Lemmas.RelayLeg'])
+        if not ctx.quick(): ctx.leanchecker(['AthlibVerif.Props.C10', 'AthlibVerif.Lemmas.MatchSound', 'AthlibVerif.Lemmas.MatchCodes', 'AthlibVerif.Lemmas.DistToken', 'AthlibVerif.Lemmas.RelayLeg', 'AthlibVerif.Lemmas.Greedy', 'AthlibVerif.Lemmas.DistRelay'])
     vlib.use_repo()
     import athlib
     from athlib import codes
